@@ -11,6 +11,8 @@ pub mod metrology;
 pub mod raster3;
 pub mod stats;
 pub mod utility;
+#[cfg(feature = "verif")]
+pub mod verif;
 pub mod sensor;
 
 pub type Result<T> = std::result::Result<T, Box<dyn Error>>;
